@@ -1052,8 +1052,14 @@ def correspond(ctx, corr):
         corr.fail("svd / solve stream aborted under the sanitizers", {"stream": "svd", "ops": p2[min(crashes2)][:3]}, "SVD", str(crashes2)[:1500])
     ctx.log("svd/solve lines through the harness")
     # the model's substitution loops keep the right-hand side as a function (every read replays the earlier
-    # updates): dimension 5 costs most of the time, so the quick tier runs the model up to dimension 4
-    in_model = [ctx.thorough or len(A) <= 4 for (_l, A, _r) in solve_lines]
+    # updates): dimension 5 costs most of the time, so the quick tier runs the model up to dimension 4, the thorough tier
+    # also on the first 150 systems of dimension 5 (the oracle A x = b on the C++ answer runs on all)
+    in_model, n5 = [], 0
+    for (_l, A, _r) in solve_lines:
+        ok = len(A) <= 4
+        if not ok and ctx.thorough and n5 < 150:
+            ok, n5 = True, n5 + 1
+        in_model.append(ok)
     msolve = [l for l, ok in zip(p2[1], in_model) if ok]
     flt2, _ = run_cases(drv, [[], msolve], args=("float",))
     rat2, _ = run_cases(drv, [[], msolve], args=("rat",))
